@@ -126,8 +126,9 @@ Proof. repeat split; vm_compute; reflexivity. Qed.
 (* ---- lengths inside the note language: C04_token_boundary composed with C04_denotes ----
    The three readers of the note language that take a length: `l` (read_length), `r` (read_rest) and the lettered notes
    (read_note).  Each has its own characters directly after the command letter, which a length must not start with:
-     l   '.'            ("l." + word is the reservation syntax l.onNote(..): a length starting with '.' loses that dot,
-                         and a word directly after it, to that test - C04_l_dot_refuted)
+     l   '.' + one of the words Random onTime T onNote N onCycle C is the reservation syntax (l.onNote(..)); with any other
+         word, or none, the dot belongs to the length ("l." = the dotted default; /repo eb20c24).  l_dot_ok s: s does not
+         start with '.', or the word after that dot is none of these.  Only the length "." alone needs it (C04_l_dot_ok)
      r   '*' '-'        ("r-4" is a backward rest)
      c   '+' '#' '-' '*' (accidentals / natural: "c-4" is c flat, 4)
    Reading `print e ++ r` yields the token carrying the text of e and the cursor at r (after blanks / comments for r);
@@ -144,7 +145,7 @@ Theorem C04_in_program_rest : forall (ec : list tok -> res song -> res song) (e 
 Proof. exact rest_in_program. Qed.
 
 Theorem C04_in_program_length : forall (ec : list tok -> res song -> res song) (tb : Z) (e : expr) (r : list Z) (ln : Z) (s : song),
-  expr_wf e = true -> len_boundary r = true -> eq_char (print e ++ r) 46 = false -> cur_valid s ->
+  expr_wf e = true -> len_boundary r = true -> l_dot_ok (print e ++ r) = true -> cur_valid s ->
   exists t, read_length tb (print e ++ r) ln = Ok (Some t, r, ln) /\ t = TLength (print e) /\
   exists s', step_song ec t s = Ok s' /\ tr_length (cur_track s') = denote (s_timebase s) (s_timebase s) e /\
              tr_timepos (cur_track s') = tr_timepos (cur_track s).
@@ -159,6 +160,12 @@ Theorem C04_in_program_note : forall (ec : list tok -> res song -> res song) (z 
   exists s', step_song ec t s = Ok s' /\
     tr_timepos (cur_track s') = tr_timepos (cur_track s) + denote (s_timebase s) (tr_length (cur_track s)) e.
 Proof. exact note_in_program. Qed.
+
+(* every length expression other than the single dot satisfies l_dot_ok, whatever follows it: dotted defaults "l.." "l.^8",
+   and of course everything that does not start with a dot *)
+Theorem C04_l_dot_ok : forall (e : expr) (r : list Z),
+  expr_wf e = true -> len_boundary r = true -> print e <> [46] -> l_dot_ok (print e ++ r) = true.
+Proof. exact l_dot_ok_auto. Qed.
 
 (* the length field of a lettered note is the expression whatever follows the boundary (gate, velocity, timing, octave, '&') *)
 Theorem C04_in_program_note_field : forall (z : Z) (fl : list Z) (e : expr) (r : list Z) (ln : Z),
@@ -178,13 +185,24 @@ Proof.
   split; [vm_compute; reflexivity|]. split; [eexists; split; vm_compute; reflexivity|].
   split; [vm_compute; reflexivity|]. split; [vm_compute; reflexivity|]. unfold cur_valid. vm_compute. lia.
 Qed.
-(* outside the proviso: "l. c" leaves the default length alone (the dot is taken for the start of ".onNote"), "l.." is
-   one dot, and in "l.c d" the c disappears with the dot *)
-Example C04_l_dot_refuted :
-  read_length 96 [46; 32; 99] 0 = Ok (Some (TLength []), [99], 0) /\
-  read_length 96 [46; 46; 32; 99] 0 = Ok (Some (TLength [46]), [99], 0) /\
-  read_length 96 [46; 99; 32; 100] 0 = Ok (Some (TLength []), [100], 0).
-Proof. repeat split; vm_compute; reflexivity. Qed.
+(* "l. c": the dotted default length - the token carries ".", l_dot_ok holds, and after it a c moves the pointer by 144 ticks
+   at time base 96; "l.. c" carries both dots; in "l.c d" the c is left to be read as a note; "l.onNote(1)" and "l.N(1)" are
+   reservations (the one place where l_dot_ok fails) *)
+Definition ex_dot : expr := (mkAtom false false [] 1, []).
+Example C04_l_dot :
+  print ex_dot = [46] /\ l_dot_ok (print ex_dot ++ [32; 99]) = true /\
+  read_length 96 [46; 32; 99] 0 = Ok (Some (TLength [46]), [99], 0) /\
+  read_length 96 [46; 46; 32; 99] 0 = Ok (Some (TLength [46; 46]), [99], 0) /\
+  read_length 96 [46; 99; 32; 100] 0 = Ok (Some (TLength [46]), [99; 32; 100], 0) /\
+  (exists s1 s2, step_song (fun _ r => r) (TLength [46]) song_new = Ok s1 /\ tr_length (cur_track s1) = 144 /\
+     step_song (fun _ r => r) (TNote 0 0 0 [] 0 (-1) ISIZE_MIN (-1) 0) s1 = Ok s2 /\ tr_timepos (cur_track s2) = 144) /\
+  l_dot_ok ([46] ++ [111; 110; 78; 111; 116; 101; 40; 49; 41]) = false /\ l_dot_ok ([46] ++ [78; 40; 49; 41]) = false /\
+  read_length 96 [46; 78; 40; 49; 41] 0 = Ok (Some (TOnNote Reserve.WL false [1]), [], 0).
+Proof.
+  do 5 (split; [vm_compute; reflexivity|]).
+  split; [eexists; eexists; split; [vm_compute; reflexivity|]; split; [vm_compute; reflexivity|]; split; vm_compute; reflexivity|].
+  repeat split; vm_compute; reflexivity.
+Qed.
 
 Print Assumptions C04_denotes.
 Print Assumptions C04_additive.
@@ -201,3 +219,4 @@ Print Assumptions C04_in_program_rest.
 Print Assumptions C04_in_program_length.
 Print Assumptions C04_in_program_note.
 Print Assumptions C04_in_program_note_field.
+Print Assumptions C04_l_dot_ok.
